@@ -154,8 +154,14 @@ func vJSONOp(t []string) string {
 			le.AddEventFromData(f, 0)
 		}
 		if l := vStr(t, 2); l != "-" {
-			f := strings.SplitN(l, ":", 2)
-			le.SetLogForwardingLabels([]byte(fmt.Sprintf(`[{"label_type":%q,"label_value":%q}]`, f[0], f[1])))
+			var items []string
+			for _, e := range strings.Split(l, ";") {
+				f := strings.SplitN(e, ":", 2)
+				if len(f) == 2 {
+					items = append(items, fmt.Sprintf(`{"label_type":%q,"label_value":%q}`, f[0], f[1]))
+				}
+			}
+			le.SetLogForwardingLabels([]byte("[" + strings.Join(items, ",") + "]"))
 		}
 		out, err := le.CollectorJSON("run")
 		if err != nil {
